@@ -196,29 +196,6 @@ theorem only_xyz_changes (cp sp ct st : ℚ) (hp : cp * cp + sp * sp = 1) (ht : 
 
 /-! ### real angles -/
 
-/-- the value of an angle expression of the source -/
-noncomputable def evalAngle (φ θ : ℝ) : AngleExpr → ℝ
-  | .negPhi => -φ
-  | .halfPiMinusTheta => Real.pi / 2 - θ
-  | .halfPiMinusPhi => Real.pi / 2 - φ
-  | .thetaMinusHalfPi => θ - Real.pi / 2
-  | .negTheta => -θ
-
-/-- the symbolic (cos, sin) of each angle expression are the real cosine and sine of its value -/
-theorem cs_eval (φ θ : ℝ) (e : AngleExpr) :
-    e.cs (Real.cos φ) (Real.sin φ) (Real.cos θ) (Real.sin θ) = (Real.cos (evalAngle φ θ e), Real.sin (evalAngle φ θ e)) := by
-  cases e <;> simp only [AngleExpr.cs, evalAngle, Real.cos_neg, Real.sin_neg, Real.cos_pi_div_two_sub,
-    Real.sin_pi_div_two_sub, Real.cos_sub_pi_div_two, Real.sin_sub_pi_div_two]
-
-/-- the matrix of one step with the real angle the code passes to `rot_xyz_around_axis` -/
-noncomputable def stepMatReal (φ θ : ℝ) (step : (Int × Int × Int) × AngleExpr) : Mat3 ℝ :=
-  Gen.rodrigues (Real.cos (evalAngle φ θ step.2)) (Real.sin (evalAngle φ θ step.2))
-    ((step.1.1 : Int) : ℝ) ((step.1.2.1 : Int) : ℝ) ((step.1.2.2 : Int) : ℝ)
-
-theorem stepMatReal_eq (φ θ : ℝ) (step : (Int × Int × Int) × AngleExpr) :
-    stepMatReal φ θ step = stepMat (Real.cos φ) (Real.sin φ) (Real.cos θ) (Real.sin θ) step := by
-  unfold stepMatReal stepMat; rw [cs_eval]
-
 /-- **the vector is mapped onto the axis** (real angles).  With `x = ρ cos φ`, `y = ρ sin φ`, `ρ = r sin θ`,
     `z = r cos θ` the composed rotation with the real angles −φ, π/2 − θ, … read from the source maps
     `(x, y, z)` onto `r·e_axis`, for x, y and z. -/
